@@ -19,15 +19,15 @@ from ..drivers import Harness
 LEVEL = "model_checking"
 RULE = (
     "guard formulas = closure of {and, or, not} up to the depth bound over atoms {true, false, raising, missing, "
-    "param-literal-true/false, param-callable, stateIn active leaf (#abs), stateIn active ancestor (plain), stateIn "
+    "param-literal-true/false, param-callable, param-literal-0, param-computed-empty-object (guard with a default), stateIn active leaf (#abs), stateIn active ancestor (plain), stateIn "
     "suffix, stateIn inactive}; depth<=1 formulas are crossed with 3 operand spellings x {guard, cond} x 6 positions "
     "(sole, first-of-two, second-behind-false, parent-behind-false-child, choose branch, enqueueActions check); "
     "deeper formulas are evaluated in the sole position with spellings rotated; each case = one machine + send(E) + "
     "probe; distinct_nontrivial = distinct (formula, spelling, key, position) cases"
 )
 BOUNDS = {
-    "quick": "depth<=1 over 11 atoms fully crossed; depth 2 over 6 atoms (sole position)",
-    "thorough": "depth<=1 over 11 atoms fully crossed; depth 2 over 6 atoms in all positions; depth-3 left/right chains over {T,F,R}",
+    "quick": "depth<=1 over 13 atoms fully crossed; depth 2 over 6 atoms (sole position)",
+    "thorough": "depth<=1 over 13 atoms fully crossed; depth 2 over 6 atoms in all positions; depth-3 left/right chains over {T,F,R}",
 }
 ASSUMPTIONS = [
     "a missing atom that cannot influence the formula's value may or may not be reported (short-circuiting is allowed)",
@@ -35,7 +35,7 @@ ASSUMPTIONS = [
 ]
 ENGINES = ("sync", "async")
 
-ATOMS1 = ["T", "F", "R", "M", "Pt", "Pf", "Pc", "Sa", "Sp", "Ss", "Si"]
+ATOMS1 = ["T", "F", "R", "M", "Pt", "Pf", "Pc", "Pz", "Pe", "Sa", "Sp", "Ss", "Si"]
 ATOMS2 = ["T", "F", "R", "M", "Sa", "Si"]
 POSITIONS = ["sole", "first", "second", "parent", "second-p", "parent-p", "choose", "check"]
 
@@ -50,6 +50,9 @@ def atom_cfg(a: str) -> Any:
         "Pt": {"type": "gP", "params": {"v": True}},
         "Pf": {"type": "gP", "params": {"v": False}},
         "Pc": {"type": "gP", "params": _callable_params},
+        # params that are falsy values are still params: a literal 0 and a computed empty object
+        "Pz": {"type": "gZ", "params": 0},
+        "Pe": {"type": "gE", "params": _empty_params},
         "Sa": {"type": "stateIn", "params": {"state": "#m.p.c1"}},
         "Sp": {"type": "stateIn", "params": {"state": "m.p"}},
         "Ss": {"type": "stateIn", "params": {"state": "p.c1"}},
@@ -57,12 +60,16 @@ def atom_cfg(a: str) -> Any:
     }[a]
 
 
+def _empty_params(args):
+    return {}
+
+
 def _callable_params(args):
     return {"v": True, "computed": True}
 
 
 def atom_val(a: str) -> Any:
-    return {"T": True, "F": False, "R": False, "M": "M", "Pt": True, "Pf": False, "Pc": True,
+    return {"T": True, "F": False, "R": False, "M": "M", "Pt": True, "Pf": False, "Pc": True, "Pz": True, "Pe": False,
             "Sa": True, "Sp": True, "Ss": True, "Si": False}[a]
 
 
@@ -198,7 +205,15 @@ def guard_impls(seen_params: List[Any]) -> Dict[str, Any]:
         seen_params.append(params)
         return bool(params["v"])
 
-    return {"gT": gT, "gF": gF, "gR": gR, "gP": gP}
+    def gZ(ctx, ev, params):
+        # true exactly when the literal 0 was handed over
+        return params == 0 and params is not None
+
+    def gE(ctx, ev, params=None):
+        # a guard with a default: false when the (empty) params object is handed over, true when it is withheld
+        return params is None
+
+    return {"gT": gT, "gF": gF, "gR": gR, "gP": gP, "gZ": gZ, "gE": gE}
 
 
 def run_case(f, spelling: int, key: str, pos: str, res, viol) -> None:
